@@ -178,11 +178,11 @@ pub fn run(a: &Args) {
                             let small = small.unwrap();
                             let t1 = small["cpu_ns"].as_u64().unwrap_or(0);
                             // large: the wall-clock limit is a multiple of what the judge allows, so a run that would be judged a
-                            // violation anyway is cut short; a timed-out run is repeated once with four times the limit (machine load)
-                            let limit_ms = (t1 / 1_000_000) * (factor as u64) * 16 + 3000;
+                            // violation anyway is cut short; a timed-out run is repeated once with twice the limit (machine load); the limit is capped at a minute
+                            let limit_ms = ((t1 / 1_000_000) * (factor as u64) * 16 + 3000).min(60_000);
                             let mut large = measure(&exe, &s, base * factor, &api, limit_ms);
                             if large["timed_out"] == json!(true) {
-                                large = measure(&exe, &s, base * factor, &api, limit_ms * 4);
+                                large = measure(&exe, &s, base * factor, &api, limit_ms * 2);
                             } else {
                                 // keep the better of two (noise only ever adds time)
                                 let again = measure(&exe, &s, base * factor, &api, limit_ms);
